@@ -41,6 +41,23 @@ RULE = (
 _CANON = re.compile(rb"\A(0|[1-9][0-9]*)\.(0|[1-9][0-9]*)\.(0|[1-9][0-9]*)\Z")  # the *spec*, ASCII only
 
 
+def big_int(b: bytes | str) -> int:
+    """Decimal value of an ASCII digit string of any length (CPython's int() refuses more than 4300 digits)."""
+    t = b.decode() if isinstance(b, bytes) else b
+    v = 0
+    for i in range(0, len(t), 4000):
+        c = t[i:i + 4000]
+        v = v * 10 ** len(c) + int(c)
+    return v
+
+
+def _short(v: Any) -> str:
+    """Printable form of a parsed version whose components may be too large for int -> str."""
+    if v is None:
+        return "None"
+    return "[" + ", ".join(str(x) if x < 10 ** 30 else f"<{x.bit_length()}-bit int>" for x in v) + "]"
+
+
 def spec_pass(srv: tuple[int, int, int] | None, method: str, md: bytes | None) -> bool:
     """The property, stated directly."""
     if srv is None or method == "__describe__":
@@ -50,7 +67,7 @@ def spec_pass(srv: tuple[int, int, int] | None, method: str, md: bytes | None) -
     m = _CANON.match(md)
     if not m:
         return False
-    return (int(m.group(1)), int(m.group(2))) == srv[:2]
+    return (big_int(m.group(1)), big_int(m.group(2))) == srv[:2]
 
 
 def spec_direction(srv: tuple[int, int, int], md: bytes | None) -> str:
@@ -63,7 +80,7 @@ def spec_direction(srv: tuple[int, int, int], md: bytes | None) -> str:
     m = _CANON.match(md)
     if not m:
         return "malformed"
-    c = (int(m.group(1)), int(m.group(2)))
+    c = (big_int(m.group(1)), big_int(m.group(2)))
     return "client_too_old" if c < srv[:2] else "server_too_old"
 
 
@@ -323,6 +340,8 @@ def run(ctx: Any) -> None:
             pass
     for a, b, c in itertools.product(GRID, repeat=3):
         strings.append(f"{a}.{b}.{c}")
+    for n in (4300, 4301, 8001):
+        strings += [f"1.2.{'9' * n}", f"{'7' * n}.0.0", f"1.{'1' + '0' * n}.3", f"1.2.0{'9' * n}"]
     n_gen = ctx.budget(5000, 200000)
     for _ in range(n_gen):
         try:
@@ -330,23 +349,26 @@ def run(ctx: Any) -> None:
         except UnicodeDecodeError:
             pass
     strings = [s for s in strings if not any(0xD800 <= ord(ch) <= 0xDFFF for ch in s)]
+    SKIP = object()  # strings whose components exceed what json.loads can read back from the driver: O only
+    small = [s for s in strings if len(s) <= 4000]
     if ctx.driver is not None:
-        res = ctx.driver.batch([("C09.parse", {"s": s2j(s)}) for s in strings])
+        answers = dict(zip(small, ctx.driver.batch([("C09.parse", {"s": s2j(s)}) for s in small])))
     else:
-        res = [None] * len(strings)
+        answers = {}
+    res = [answers.get(s, SKIP) if ctx.driver is not None else None for s in strings]
     for s, m in zip(strings, res):
         try:
             impl = list(parse_version(s))
         except ValueError:
             impl = None
         want = _CANON.match(s.encode())
-        spec = [int(want.group(1)), int(want.group(2)), int(want.group(3))] if want else None
+        spec = [big_int(want.group(1)), big_int(want.group(2)), big_int(want.group(3))] if want else None
         case = {"parse_version": s}
         ctx.case(case, nontrivial=True, tags=("k:parse", "parse:ok" if impl else "parse:reject"))
         if impl != spec:
             ctx.fail(case, "C09:parse-accepts-noncanonical" if impl else "C09:parse-rejects-canonical",
-                     f"parse_version({s!r}) = {impl}, canonical-semver spec says {spec}")
-        if ctx.driver is not None and m != impl:
+                     f"parse_version({s[:60]!r}{'…' if len(s) > 60 else ''} [{len(s)} chars]) = {_short(impl)}, canonical-semver spec says {_short(spec)}")
+        if ctx.driver is not None and m is not SKIP and m != impl:
             ctx.mismatch(case, m, impl, "parse_version: model vs implementation")
 
     # ---- O + K2: full dispatch --------------------------------------------------------------------
@@ -400,6 +422,14 @@ def run(ctx: Any) -> None:
         near.append((sv, f"{sv[0]}.{sv[1]}".encode()))
         near.append((sv, f"{sv[0]}.{sv[1]}.{sv[2]}.".encode()))
         near.append((sv, f"v{sv[0]}.{sv[1]}.{sv[2]}".encode()))
+    # components beyond CPython's int-string digit limit (4300): still canonical semver, so the verdict follows major.minor
+    for n in (4299, 4300, 4301, 5000, 9001):
+        big = "9" * n
+        for sv in [(1, 2, 3), (0, 0, 0)]:
+            near.append((sv, f"{sv[0]}.{sv[1]}.{big}".encode()))       # same major.minor, huge patch: dispatch
+            near.append((sv, f"{sv[0]}.{big}.0".encode()))             # huge minor: refuse (server too old)
+            near.append((sv, f"{big}.{sv[1]}.{sv[2]}".encode()))       # huge major: refuse
+            near.append((sv, f"{sv[0]}.{sv[1]}.0{big}".encode()))      # leading zero: malformed
     for sv, md in near:
         server, calls, client = get(sv)
         for method in methods:
@@ -455,7 +485,7 @@ def replay(ctx: Any, case: dict[str, Any]) -> None:
         except ValueError:
             impl = None
         want = _CANON.match(s.encode())
-        spec = [int(want.group(1)), int(want.group(2)), int(want.group(3))] if want else None
+        spec = [big_int(want.group(1)), big_int(want.group(2)), big_int(want.group(3))] if want else None
         ctx.case(case)
         if impl != spec:
             ctx.fail(case, "C09:parse-accepts-noncanonical" if impl else "C09:parse-rejects-canonical", f"{impl} vs {spec}")
